@@ -278,9 +278,9 @@ class extract_visitor(NodeVisitor):
     def visit_ClassDef(self, node):
         # type: (ast.ClassDef) -> None
         cur = self.flow
-        self.visit_in_flow(node.decorator_list, cur)
-        self.visit_in_flow(node.bases, cur)
-        self.visit_in_flow([k.value for k in getattr(node, 'keywords', [])], cur)
+        cur = self.visit_in_flow(node.decorator_list, cur)
+        cur = self.visit_in_flow(node.bases, cur)
+        cur = self.visit_in_flow([k.value for k in getattr(node, 'keywords', [])], cur)
         scope = ClassScope(cur.scope, node, top=self.top)
         cur.add_name(scope)  # type: ignore[arg-type]  # TODO
         self.visit_in_flow(node.body, scope.flow)
@@ -297,7 +297,10 @@ class extract_visitor(NodeVisitor):
         # type: (ast.ListComp | ast.GeneratorExp | ast.DictComp | ast.SetComp) -> None
         p = cur = self.flow
         for g in node.generators:
-            self.visit_in_flow(g.iter, p)
+            # a comprehension nested in the iterable ends in a region of its own: go on from there
+            p = self.visit_in_flow(g.iter, p)
+            if g is node.generators[0]:
+                cur = p  # the first iterable is evaluated in any case
             pp = p
             p = self.make_flow('comp', [p])
             for nn, _idx in get_indexes_for_target(g.target, [], []):
@@ -311,15 +314,16 @@ class extract_visitor(NodeVisitor):
 
             if g.ifs:
                 for inode in g.ifs:
-                    self.visit_in_flow(inode, p)
+                    # a nested comprehension ends in a region of its own: go on from there
+                    p = self.visit_in_flow(inode, p)
                 # conditions run before what follows them: names they bind (walrus) are visible there
                 p = self.make_flow('comp-if', [p])
 
         elt = getattr(node, 'elt', None) or node.value  # type: ast.AST # type: ignore[union-attr]
-        self.visit_in_flow(elt, p)
+        p = self.visit_in_flow(elt, p)
 
         if hasattr(node, 'key'):
-            self.visit_in_flow(node.key, p)
+            p = self.visit_in_flow(node.key, p)
 
         self.flow = self.make_flow('comp-join', [cur, p])
         self.flow.scope.flow = self.flow
